@@ -961,6 +961,16 @@ def check_primal(world, rec):
     if any(c.answer.status != "optimal" for c in rec.caps):
         world.note("real_solver_reported_inaccurate_solution")   # nothing is promised beyond solver tolerance
         return
+    for c_ in rec.caps:
+        G_ = getattr(c_.answer, "G", None)
+        if G_ is not None:
+            ev_ = np.linalg.eigvalsh((np.asarray(G_) + np.asarray(G_).T) / 2)
+            if ev_.min() < -1e-6 * (1.0 + abs(ev_.max())):
+                # the solver's Gram matrix is not positive semidefinite to 1e-6: the library evaluates the instance
+                # on its projection, which differs from the solver's answer by that much - that is the solver's
+                # tolerance on this problem, whatever its status says
+                world.note("real_solver_gram_not_psd_to_1e-6")
+                return
     if getattr(ans, "solver", None) != "CLARABEL" and capL.transport == "cvxpy":
         # accuracy-dependent verdicts are taken on CLARABEL runs only (SCS's 1e-4 is relative to the data norms,
         # which the templates' large redundant bounds inflate); SCS runs are judged by the exact oracles
@@ -1069,7 +1079,14 @@ def check_heuristic_exchange(world, rec):
     if rec.exc is None and rec.result is not None and not rec.injected and a1.obj is not None:
         # accuracy-dependent clauses need accurate answers: a REAL solver that reports "optimal_inaccurate" for one
         # of the problems promises nothing beyond that status (same rule as O-PRIMAL)
-        real = a1.mode == "real" and all(c.answer.status == "optimal" for c in rec.caps)
+        real = a1.mode == "real" and all(c.answer.status == "optimal" for c in rec.caps) and \
+            not getattr(rec, "spontaneous", False)
+        for c_ in rec.caps:
+            G_ = getattr(c_.answer, "G", None)
+            if real and G_ is not None:
+                ev_ = np.linalg.eigvalsh((np.asarray(G_) + np.asarray(G_).T) / 2)
+                if ev_.min() < -1e-6 * (1.0 + abs(ev_.max())):
+                    real = False      # (same rule as O-PRIMAL: the solver's own answer is not accurate to 1e-6)
         scale = 1.0 + abs(a1.obj)
         mode = cfg.get("mode", "dual")
         if mode == "primal" and real:
